@@ -449,7 +449,17 @@ func stsDeadlock(dump string) (string, string) {
 		if strings.HasPrefix(st, "sync.Mutex.Lock") || strings.HasPrefix(st, "sync.RWMutex") || strings.HasPrefix(st, "semacquire") {
 			continue
 		}
-		if n > 1 {
+		// idle = a worker that sits in the function it was started with (its only frame of
+		// the package is the goroutine's entry function) - anything else, e.g. a Receive
+		// called by a request handler and waiting for the rest of its body, may hold the lock
+		entry := ""
+		for _, ln := range strings.Split(g.stack, "\n") {
+			if ln == "" || strings.HasPrefix(ln, "\t") || strings.HasPrefix(ln, "goroutine ") || strings.HasPrefix(ln, "created by ") {
+				continue
+			}
+			entry = ln
+		}
+		if n > 1 || !strings.HasPrefix(entry, pkg) {
 			return "", "" // busy inside the package and waiting for something else
 		}
 	}
